@@ -22,14 +22,6 @@ BUILTIN = {"IA5String": IA5, "PrintableString": PRINTABLE, "NumericString": NUME
            "BMPString": set(range(0, 0xfffe))}      # the two non-characters FFFE / FFFF are not BMPString characters
 
 
-# the checker generated for a BOOLEAN value constraint reads the 4-byte BOOLEAN_t through a `const long *`
-# (finding C08-boolean-constraint-reads-long: ASan aborts the driver); on until the repair is in the tree
-BOOLEAN_VALUE_CONSTRAINTS = False
-# SEQUENCE_constraint / SET_constraint return at the first present member without a member-level checker
-# (finding C08-sequence-early-return); the excuse goes away with the repair
-SEQUENCE_EARLY_RETURN = True
-
-
 def prim(name, content):
     return tlv(UTAG[name] * 4, False, bytes(content))
 
@@ -95,11 +87,13 @@ def integer_leaves():
 def bool_leaves():
     T, F = ("bool:TRUE", prim("BOOLEAN", b"\xff")), ("bool:FALSE", prim("BOOLEAN", b"\x00"))
     mk = lambda ok_t, ok_f: [(T[0], T[1], [] if ok_t else ["value"], None), (F[0], F[1], [] if ok_f else ["value"], None)]
-    L = [Leaf("WB4", "BOOLEAN", mk(True, True))]
-    if BOOLEAN_VALUE_CONSTRAINTS:
-        L += [Leaf("WB1", "BOOLEAN (TRUE)", mk(True, False)), Leaf("WB2", "BOOLEAN (FALSE)", mk(False, True)),
-              Leaf("WB3", "BOOLEAN (TRUE | FALSE)", mk(True, True))]
-    return L
+    # a constrained BOOLEAN directly in front of another int-sized member (no padding between the two)
+    pair = lambda a, b: tlv(16 * 4, True, bytes([0x80, 1, 0xff if a else 0, 0x81, 1, 0xff if b else 0]))
+    wbs = Leaf("WBS", "SEQUENCE { wbsa BOOLEAN (FALSE), wbsb BOOLEAN }",
+               [("boolpair:FT", pair(0, 1), [], None), ("boolpair:FF", pair(0, 0), [], None),
+                ("boolpair:TF", pair(1, 0), ["value"], None), ("boolpair:TT", pair(1, 1), ["value"], None)], inline=False)
+    return [wbs, Leaf("WB1", "BOOLEAN (TRUE)", mk(True, False)), Leaf("WB2", "BOOLEAN (FALSE)", mk(False, True)),
+            Leaf("WB3", "BOOLEAN (TRUE | FALSE)", mk(True, True)), Leaf("WB4", "BOOLEAN", mk(True, True))]
 
 
 ENUM = [("red", 0), ("green", 1), ("blue", 5), ("neg", -3), ("big", 128), ("huge", 2147483647)]
@@ -158,7 +152,7 @@ def real_leaves():
     L.append(Leaf("WR3", "REAL (0..MAX)", mk(lambda x: x >= 0)))
     L.append(Leaf("WR4", "REAL (-1..1)", mk(lambda x: -1 <= x <= 1)))
     L.append(Leaf("WR5", "REAL (5)", mk(lambda x: x == 5)))
-    L.append(Leaf("WR6", "REAL (MIN..-1 | 1..MAX)", mk(lambda x: x <= -1 or x >= 1, "C08-min-max-union-unchecked")))
+    L.append(Leaf("WR6", "REAL (MIN..-1 | 1..MAX)", mk(lambda x: x <= -1 or x >= 1)))
     L.append(Leaf("WR7", "REAL (0.5..1.5)", mk(lambda x: 0.5 <= x <= 1.5, "C08-real-bounds-unchecked")))
     return L
 
@@ -173,6 +167,23 @@ def misc_leaves():
                                              ("gt:letters", prim("GeneralizedTime", b"not a time at all"), ["format"], None),
                                              ("gt:empty", prim("GeneralizedTime", b""), ["format"], None)]))
     L.append(Leaf("WO1", "OBJECT IDENTIFIER", [("oid:1.2.3", prim("OID", b"\x2a\x03"), [], None), ("oid:2.999", prim("OID", b"\x88\x37"), [], None)]))
+    return L
+
+
+def bits_leaves():
+    """BIT STRING SIZE: the size is counted in bits (8 * octets - unused)"""
+    def der(n):
+        nb = (n + 7) // 8
+        un = 8 * nb - n
+        body = (bytes([0xff] * (nb - 1)) + bytes([(0xff << un) & 0xff])) if nb else b""
+        return prim("BIT STRING", bytes([un]) + body)
+    L = []
+    for i, size in enumerate([[(0, 0)], [(1, 1)], [(0, 1)], [(8, 8)], [(7, 9)], [(1, None)], [(0, 0), (9, 9)], [(0, 7), (9, None)], [(16, 16)], [(0, 65535)]]):
+        ns = set([0, 1, 2, 7, 8, 9, 10, 15, 16, 17])
+        for a, b in size:
+            ns.update([max(a - 1, 0), a, a + 1] + ([b - 1, b, b + 1] if b is not None else []))
+        samples = [("bits:%d" % n, der(n), [] if in_parts(size, n) else ["size"], None) for n in sorted(x for x in ns if x >= 0)]
+        L.append(Leaf("WZ%d" % i, "BIT STRING (SIZE(%s))" % parts_text(size), samples))
     return L
 
 
@@ -228,8 +239,6 @@ def string_samples(base, size, runs, rng):
         known = None
         if base == "UTF8String" and bad == ["from"] and len(runs) == 1:
             known = "C08-utf8-from-unchecked"
-        if bad == ["size"] and len(size) > 1 and any(a == 0 for a, _b in size) and any(b is None for _a, b in size):
-            known = "C08-min-max-union-unchecked"          # SIZE union whose hull is 0..MAX: dropped like SIZE(0..MAX)
         out.append((label, prim(base, content), bad, known))
 
     for n in lens:
@@ -308,20 +317,17 @@ def wrappers(leaves, rng, group=6):
             return rng.shuffle(bad)[:3] + rng.shuffle(good)[:2]
         # SEQUENCE member
         cases = []
-        own = ["(" in l.text for l in g]       # a constraint is written at the member: memb_*_constraint exists
         for j, l in enumerate(g):
             for lab, der, bad, known in picks(l):
                 body = b"".join(retag(der if k == j else valid[k], k) for k in range(len(g)))
-                if bad and SEQUENCE_EARLY_RETURN and not all(own[:j]):
-                    known = "C08-sequence-early-return"          # SEQUENCE_constraint returned at an earlier member without own checker
                 cases.append(("seq-member:" + lab, tlv(16 * 4, True, body), bad, known))
         out.append(("WS%d" % i, "SEQUENCE { %s }" % ", ".join("s%s %s" % (n, l.text) for n, l in zip(names, g)), cases))
-        # SET member: SET_constraint looks at the first present member only (C08-sequence-early-return)
+        # SET member
         cases = []
         for j, l in enumerate(g):
             for lab, der, bad, known in picks(l):
                 body = b"".join(retag(der if k == j else valid[k], k) for k in range(len(g)))
-                cases.append(("set-member:" + lab, tlv(17 * 4, True, body), bad, known if (j == 0 or not bad or not SEQUENCE_EARLY_RETURN) else "C08-sequence-early-return"))
+                cases.append(("set-member:" + lab, tlv(17 * 4, True, body), bad, known))
         out.append(("WT%d" % i, "SET { %s }" % ", ".join("t%s %s" % (n, l.text) for n, l in zip(names, g)), cases))
         # CHOICE alternative
         cases = []
@@ -351,7 +357,7 @@ def wrappers(leaves, rng, group=6):
 
 
 def wide_module(rng, name="MW0"):
-    leaves = integer_leaves() + bool_leaves() + enum_leaves() + real_leaves() + misc_leaves() + string_leaves(rng)
+    leaves = integer_leaves() + bool_leaves() + enum_leaves() + real_leaves() + misc_leaves() + bits_leaves() + string_leaves(rng)
     lines = ["%s DEFINITIONS AUTOMATIC TAGS ::= BEGIN" % name]
     cases, defs, texts = [], [], {}
     for l in leaves:
